@@ -382,6 +382,64 @@ def c05_starts(task):
     return {"cov": cov, "viol": viol}
 
 
+def c05_awkward(task):
+    """Windows of n samples given as n / rate where the floating-point product (n / rate) * rate falls just below n: whatever
+    window size the library settles on, every region must carry the input's own bytes at its reported start (window-agnostic
+    oracle on position-coded audio: bytes == input[round(start*rate) ...], start*rate within 1e-6 of a whole sample)."""
+    rate, count = task
+    L = lib()
+    cov = {"evaluations": 0, "distinct_nontrivial": 0, "large_rows_not_exhaustive": 0, "samples": []}
+    viol = []
+    sizes = [n for n in range(2, 4000) if int((n / rate) * rate) == n - 1][:count]
+    for n in sizes:
+        aw = n / rate
+        layout = [(False, 3), (True, 4), (False, 3), (True, 2), (False, 2)]
+        vals, i = [], 0
+        for act, k in layout:
+            for _ in range(k * n):
+                vals.append(8000 + (i * 7919) % 20000 if act else i % 3)
+                i += 1
+        import struct
+
+        data = struct.pack("<%dh" % len(vals), *vals)
+        for kind in ("bytes", "region", "reader"):
+            cov["evaluations"] += 1
+            cov["large_rows_not_exhaustive"] += 1
+            kw = dict(min_dur=aw, max_dur=100 * aw, max_silence=0, energy_threshold=50)
+            try:
+                if kind == "bytes":
+                    regs = list(L["core"].split(data, sr=rate, sw=2, ch=1, analysis_window=aw, **kw))
+                elif kind == "region":
+                    regs = list(L["core"].AudioRegion(data, rate, 2, 1).split(analysis_window=aw, **kw))
+                else:
+                    regs = list(L["core"].split(L["util"].AudioReader(data, block_dur=aw, sr=rate, sw=2, ch=1), **kw))
+                msg = None
+                if len(regs) < 2:
+                    msg = "%d regions for two separate bursts" % len(regs)
+                for r in regs:
+                    pos = r.start * rate
+                    p_ = round(pos)
+                    if abs(pos - p_) > 1e-6:
+                        msg = "region start %r is %r samples: not a whole sample" % (r.start, pos)
+                    elif bytes(r.data) != data[2 * p_ : 2 * p_ + len(r.data)]:
+                        at = data.find(bytes(r.data)[:64])
+                        msg = "region reported at %r s (sample %d) carries the input's bytes of sample %s" % (r.start, p_, at // 2 if at >= 0 else "?")
+                    elif abs((r.end - r.start) - len(r) / rate) > 1e-9 or abs(r.duration - len(r) / rate) > 1e-9:
+                        msg = "end - start %r, duration %r, %d samples at %d Hz" % (r.end - r.start, r.duration, len(r), rate)
+                    if msg:
+                        break
+                if regs:
+                    cov["distinct_nontrivial"] += 1
+            except Exception as exc:
+                msg = "raised %r" % (exc,)
+            if msg and len(viol) < 3:
+                viol.append(("awkward-window rate=%d n=%d input=%s" % (rate, n, kind),
+                             "analysis window %r s = %d / %d (float product %r), input %s: %s" % (aw, n, rate, aw * rate, kind, msg),
+                             {"kind": "c05a", "rate": rate, "count": count}))
+    cov["samples"].append({"awkward_window_sizes": sizes, "rate": rate})
+    return {"cov": cov, "viol": viol}
+
+
 def tuples_g3():
     out = []
     for mx in (1, 2, 3):
@@ -1327,6 +1385,8 @@ def run(prop, tier):
         itup = [(1, 1, 0, 0), (1, 2, 0, 0), (2, 3, 1, 0), (1, 3, 1, 4), (2, 2, 0, 2), (1, 3, 2, 6)]
         itasks = [("i", (ipats, [t])) for t in itup]
         itasks += [("l", t) for t in ((2, 1, 4, 16000), (1, 2, 8, 8000), (4, 3, 2, 16), (2, 2, 16, 44100))]
+        # window sizes whose floating-point product with the rate falls just below a whole number of samples
+        itasks += [("a", (r_, 4 if quick else 12)) for r_ in (11025, 44100, 48000, 16000, 96000, 22050, 100, 8000)]
         # two split() calls running in two threads: all schedules with <= 1 preemptions inside core.py
         itasks += [("t", ("AAaA", "AaAA", (1, 3, 1, 0), 1)), ("t", ("AAA", "aAA", (2, 2, 0, 4), 1))]
         if not quick:
@@ -1430,6 +1490,8 @@ def _c05_dispatch(t):
         return c05_starts(t[1])
     if t[0] == "t":
         return c05_threads(t[1])
+    if t[0] == "a":
+        return c05_awkward(t[1])
     return c05_work(t[1]) if t[0] == "w" else c05_interleaved(t[1])
 
 
@@ -1438,6 +1500,9 @@ def replay(case):
     k = case["kind"]
     if k == "c05i":
         part = c05_interleaved(([case["a"], case["b"]], [tuple(case["tuple"])]))
+        return part["viol"][0][1] if part["viol"] else None
+    if k == "c05a":
+        part = c05_awkward((case["rate"], case["count"]))
         return part["viol"][0][1] if part["viol"] else None
     if k == "c05t":
         part = c05_threads((case["a"], case["b"], tuple(case["tuple"]), case["bound"]))
